@@ -242,6 +242,30 @@ class ProxyFamily(Family):
         return jobs
 
 
+class ElemFamily(Family):
+    """ContiguousElement value semantics (C12) over a covering set of allocator kinds"""
+
+    def __init__(self, nlists=20, nscripts=12, moved_targets=True):
+        super().__init__()
+        self.nlists, self.nscripts, self.moved_targets = nlists, nscripts, moved_targets
+
+    def jobs(self, rng, tier):
+        mult = 1 if tier == "quick" else 5
+        kinds = [K_DEFAULT, K_PMR, (1, 1, 1, 0, 0), (0, 1, 0, 0, 1), (1, 0, 1, 0, 1), (1, 1, 1, 1, 0), (1, 0, 0, 0, 0), (0, 0, 1, 0, 0)]
+        if tier != "quick":
+            kinds = gen.AKINDS_ALL
+        jobs = []
+        for li, L in enumerate(self.lists(rng, tier, self.nlists)):
+            K = kinds[(li * 5 + 1) % len(kinds)]
+            scripts = []
+            for _ in range(self.nscripts * mult):
+                lines, st = gen.gen_elem(L, K, rng, moved_targets=self.moved_targets)
+                self.add_stats(st)
+                scripts.append((gen.script_id(lines), lines, None))
+            jobs.append(Job(L, K, scripts, tag="elem"))
+        return jobs
+
+
 class Multi(Family):
     def __init__(self, *fams):
         super().__init__()
@@ -354,3 +378,4 @@ FAMILIES["C02"] = HistFamily(strict_block=False, nhist=6, nfill=16)
 FAMILIES["C13"] = CompareFamily()
 FAMILIES["C14"] = CompareFamily()
 FAMILIES["C11"] = ProxyFamily()
+FAMILIES["C12"] = ElemFamily()
